@@ -22,7 +22,9 @@ RULE = ("case = generated acyclic RTL design (profiles acyclic/ff_heavy/big/shap
         "design has >=3 update blocks, >=1 fault fired and >=1 non-zero non-input value compared; distinct = case digest. "
         "12% of the cases take a real RTL component from pymtl3.stdlib / the examples instead (queues, arbiters, "
         "crossbars, register files, ChecksumRTL, ProcRTL, ...): no reference model there, but all 4 schedulers must agree "
-        "on every top-level signal of every component each cycle and the state must be a fixed point")
+        "on every top-level signal of every component each cycle and the state must be a fixed point; 6% take one class "
+        "source instantiated with TWO parameter sets in one interpreter (lambda bodies, closure indices and constants "
+        "that differ per instance) against a hand-written reference")
 TIERS = {"quick": {"runs": 960, "budget_s": 100, "chunk": 4},
          "thorough": {"runs": 120000, "budget_s": 1800, "chunk": 8}}
 REAL = ["pymtl3 DSL elaboration", "GenDAGPass", "Simple/Dynamic/HeuristicTopo/Mamba2020/UnrollSim passes",
